@@ -77,7 +77,7 @@ func junkCode(r *rand.Rand, cfg Cfg, init bool) string {
 var junkWords = []string{"return", "x", "y := 1", "nil", "c.text", "foo(bar)", "a, b", "len(v)", "+", "==", "é", "世界", ";", ",", "err", "//x", "[]any", "%", "&", "'x'", "0x7b", "\"s\"", "`r`", ":", "/"}
 
 func junkBody(r *rand.Rand, cfg Cfg, b *strings.Builder, depth int) {
-	n := r.Intn(6)
+	n := r.Intn(4)
 	sep := func() {
 		if r.Intn(4) == 0 {
 			b.WriteByte('\n')
